@@ -607,6 +607,30 @@ class Program:
             self._init(units)
             self.inlined = done
 
+    def hir_expand(self, node, depth=3):
+        """the expression `node` together with the (source-level) bodies of the spliced helpers it calls, as one list
+        that hirq.walk / hirq.exprs can be run over: what an arm `X => helper(..)` does is what the helper does"""
+        from . import hirq
+
+        if not self.inlined:
+            return [node]
+        by_path = getattr(self, "_hir_by_path", None)
+        if by_path is None:
+            by_path = self._hir_by_path = {h["path"]: h for h in self.hir.values() if isinstance(h, dict) and h.get("path") and isinstance(h.get("body"), dict)}
+        out, seen, work = [node], set(), [(node, 0)]
+        while work:
+            n, d = work.pop()
+            if d >= depth:
+                continue
+            for c in list(hirq.exprs(n, "Call")) + list(hirq.exprs(n, "MethodCall")):
+                cp = hirq.callee_path(c)
+                if cp in self.inlined and cp in by_path and cp not in seen:
+                    seen.add(cp)
+                    body = {k: v for k, v in by_path[cp]["body"].items() if k != "spliced"}
+                    out.append(body)
+                    work.append((body, d + 1))
+        return out
+
     def hir_items(self):
         """(body, hir) for every function with a source-level view; a helper that was spliced into its callers is
         attributed to the first of them (its own body no longer exists)"""
